@@ -81,11 +81,26 @@ pub fn nesting_source(shape: usize, n: usize) -> String {
         5 => format!("x{}", "[0]".repeat(n)),
         6 => format!("{}1", "1 + ".repeat(n)),
         7 => format!("{}1{}", "concat(1, ".repeat(n), ")".repeat(n)),
-        _ => format!("{}1{}", "Ada(".repeat(n), ")".repeat(n)),
+        8 => format!("{}1{}", "Ada(".repeat(n), ")".repeat(n)),
+        // calls whose name has a constructor rule of its own, with fewer arguments than that rule wants (the
+        // constructor rule reads the argument, gives up at the missing comma, and the call rule reads it again)
+        9 => format!("{}1{}", "concat(".repeat(n), ")".repeat(n)),
+        10 => format!("{}1{}", "AnyAsset(".repeat(n), ")".repeat(n)),
+        11 => format!("{}1{}", "AnyAsset(1, ".repeat(n), ")".repeat(n)),
+        12 => format!("{}1{}", "AnyAsset(1, 2, ".repeat(n), ")".repeat(n)),
+        13 => format!("{}1{}", "concat(".repeat(n), ", 1)".repeat(n)),
+        // nesting through the other bracketed forms
+        14 => format!("{}1{}", "{ 1: ".repeat(n), ", }".repeat(n)),
+        15 => format!("{}1{}", "{ ".repeat(n), ": 1, }".repeat(n)),
+        16 => format!("{}1{}", "f(1, ".repeat(n), ")".repeat(n)),
+        17 => format!("{}1{}", "Foo::Bar { a: ".repeat(n), ", }".repeat(n)),
+        18 => format!("{}0{}", "x[".repeat(n), "]".repeat(n)),
+        19 => format!("{}1{}", "Foo { ...".repeat(n), " }".repeat(n)),
+        _ => format!("{}1{}", "[1, ".repeat(n), "]".repeat(n)),
     };
     format!("type Foo {{ a: Int, }}\ntx t(x: Int) {{\n  output {{\n    amount: {e},\n  }}\n}}\n")
 }
-const NEST_SHAPES: usize = 9;
+const NEST_SHAPES: usize = 21;
 
 fn cycle_source(blocks: usize, r: usize, kind: usize) -> String {
     // `blocks` inputs whose min_amount refers r times to the next one (cyclically)
